@@ -598,8 +598,10 @@ public:
     c.sched = Sched::draw(r, 4000000ull);
     c.sched.total_cap = thorough ? 200000000ull : 60000000ull;
     // (drawn last so that the other fields of existing seeds do not change)
-    if ((prop == "C01" || prop == "C12") && !c.task_plot && c.threads > 1)
+    if ((prop == "C01" || prop == "C12") && !c.task_plot && c.threads > 1) {
       c.tight_pools = r.chance(0.35);
+      c.pool_slack = c.tight_pools && r.chance(0.5) ? 1 + (int)r.below(2) : 0;
+    }
     if (c.trackers && r.chance(0.8))
       c.tracker_variant = (int)r.range(1, 9);
     if (prop == "C12" && r.chance(0.4))
@@ -848,8 +850,18 @@ public:
       if (fin0 && !M.failed && M.max_buffers_in_use > 0) {
         long nb, nt, nq;
         c.capacities(nb, nt, nq);
-        c.nbuffers = std::min(nb, 2 * M.max_buffers_in_use + 32);
-        c.ntasks = std::min(nt, 2 * M.max_tasks_in_use + 64);
+        const long margin = c.threads + 2; // of the exhaustion guard
+        if (c.pool_slack == 0) {
+          c.nbuffers = std::min(nb, 2 * M.max_buffers_in_use + 32);
+          c.ntasks = std::min(nt, 2 * M.max_tasks_in_use + 64);
+        } else {
+          // nearly full pools: a slot that is given back is handed out
+          // again at once
+          const long fb = c.pool_slack == 1 ? M.max_buffers_in_use / 4 + 8 : 4;
+          const long ft = c.pool_slack == 1 ? M.max_tasks_in_use / 4 + 8 : 4;
+          c.nbuffers = std::min(nb, M.max_buffers_in_use + fb + margin);
+          c.ntasks = std::min(nt, M.max_tasks_in_use + ft + margin);
+        }
         c.queue = c.ntasks;
         tight = true;
       } else if (!fin0) {
